@@ -46,7 +46,7 @@ func compileProps(props []genDecl) []unitResult {
 			pl = append(pl, p.P)
 		}
 		pl = append(pl, sentinel)
-		c := compileUnit(File(theEnum, "Foo", "", pl))
+		c, _ := compileRoot("object", theEnum, "", pl)
 		u := unitResult{props: ps}
 		if c.err != nil || c.panic != nil {
 			for range ps {
@@ -121,6 +121,10 @@ func runC12(cfg *vh.Config) error {
 	caseNo := 0
 	evals := 0
 	for u := 0; u < nUnits; u++ {
+		genAST = r.Chance(25)
+		if genAST {
+			res.Count("unit-via-ast")
+		}
 		var props []genDecl
 		for i, n := 0, r.Range(2, 6); i < n; i++ {
 			scope := "c12"
@@ -144,6 +148,73 @@ func runC12(cfg *vh.Config) error {
 		}
 		for _, up := range units {
 			for _, ur := range compileProps(up) {
+				// ---- whole messages: one candidate value per field
+				allOK := len(ur.props) > 1
+				cands := make([][]FValue, len(ur.props))
+				for i, p := range ur.props {
+					if !ur.ok[i] || p.P.T.Kind == TFloat {
+						allOK = false
+						break
+					}
+					cands[i] = fieldValues(r, p.P)
+					if len(cands[i]) == 0 {
+						allOK = false
+						break
+					}
+				}
+				if allOK {
+					var msgs []string
+					var outs []string
+					for i := range ur.props {
+						outs = append(outs, foutTerm(ur.md.Fields().Get(i)))
+					}
+					for k := 0; k < 6; k++ {
+						fvs := make([]FValue, len(ur.props))
+						var shown, terms []string
+						declared := true
+						for i, p := range ur.props {
+							fvs[i] = vh.Pick(r, cands[i])
+							if r.Chance(75) { // mostly values the declaration allows, so that whole messages are accepted often enough
+								var good []FValue
+								for _, c := range cands[i] {
+									if ruleSem(theEnum, p.P, c) {
+										good = append(good, c)
+									}
+								}
+								if len(good) > 0 {
+									fvs[i] = vh.Pick(r, good)
+								}
+							}
+							if !ruleSem(theEnum, p.P, fvs[i]) {
+								declared = false
+							}
+							shown = append(shown, fvs[i].String())
+							terms = append(terms, fvs[i].Coq())
+						}
+						vd := validateMessage(val, ur.md, fvs)
+						evals++
+						if vd.Problem != "" {
+							continue
+						}
+						res.Count("message")
+						if vd.Accept {
+							res.Count("message-accept")
+						}
+						if declared != vd.Accept {
+							var src []string
+							for _, p := range ur.props {
+								src = append(src, p.P.J5S(theEnum))
+							}
+							res.Fail(vh.Failure{Case: caseNo, Stream: "message", Sig: "C12 message: the validator's verdict on a whole message differs from the conjunction of the declared rules of its properties",
+								Clause: "the validator accepts a message iff every property satisfies its declared rules", Input: map[string]any{"j5s": strings.Join(src, ""), "values": shown},
+								Got: map[string]any{"validator_accepts": vd.Accept, "violations": vd.Ids}, Want: map[string]any{"declared_rules_satisfied": declared}})
+						}
+						msgs = append(msgs, fmt.Sprintf("([%s], %s)", strings.Join(terms, ";"), vh.BoolTerm(vd.Accept)))
+					}
+					cf.Terms = append(cf.Terms, fmt.Sprintf("C12Obj %s [%s] [%s]", theEnum.Coq(), strings.Join(outs, ";"), strings.Join(msgs, ";")))
+					res.Cases = append(res.Cases, vh.CaseRec{Case: caseNo, Stream: "message", Input: map[string]any{"properties": len(ur.props)}, Impl: map[string]any{"messages": len(msgs)}})
+					caseNo++
+				}
 				for i, p := range ur.props {
 					idx := i
 					res.Count("decl")
